@@ -1102,6 +1102,12 @@ class Harness(object):
                 stats.excluded['limit-reprojection-deviation>=0.2px'] += 1
             return bool(bad)
 
+        def rejected(svc_name):
+            """a request whose every resolved layer is permitted was refused: the permitted content is lost"""
+            return V('%s/permitted-request-rejected' % svc_name,
+                     'every layer of the request is permitted for this operation, but the response is %d %s'
+                     % (status, ctype), case)
+
         def check_extent():
             """query_extent handed to the callback must be the frame (harness cross-check)"""
             for svc_name, _layers, qe in cb.calls:
@@ -1154,6 +1160,8 @@ class Harness(object):
                 return done(None)
             if auth['mode'] == 'none' and status == 200:
                 stats.notes['wms-none-answered-200 (group request, doc/auth.rst says 403)'] += 1
+            if status in (401, 403):
+                return done(rejected('wms.map'))
             if status != 200 or not ctype.startswith('image/'):
                 raise core.HarnessError('unexpected GetMap response %d %s for %s: %r' % (status, ctype, url, resp.body[:300]))
             if not check_extent():
@@ -1187,6 +1195,8 @@ class Harness(object):
                     return done(V('tile.%s/denied-layer-upstream-request' % service,
                                   'upstream asked for a denied tile layer: %s' % calls[0].url, case))
                 return done(None)
+            if status in (401, 403):
+                return done(rejected('tile.' + service))
             if status != 200 or not ctype.startswith('image/'):
                 raise core.HarnessError('unexpected tile response %d %s for %s: %r' % (status, ctype, url, resp.body[:300]))
             if not check_extent():
@@ -1290,6 +1300,8 @@ class Harness(object):
                 return done(None)
             if auth['mode'] == 'none' and status == 200:
                 stats.notes['wms-none-answered-200 (group request, doc/auth.rst says 403)'] += 1
+            if status in (401, 403):
+                return done(rejected('wms.featureinfo'))
             if status != 200:
                 raise core.HarnessError('unexpected GetFeatureInfo response %d %s for %s: %r'
                                         % (status, ctype, url, resp.body[:300]))
@@ -1320,6 +1332,8 @@ class Harness(object):
                 return done(V('wmts.featureinfo/denied-layer-upstream-request',
                               'upstream asked for denied feature info: %s' % fi_calls[0].url, case))
             return done(None)
+        if status in (401, 403):
+            return done(rejected('wmts.featureinfo'))
         if status != 200:
             raise core.HarnessError('unexpected WMTS GetFeatureInfo response %d %s for %s: %r'
                                     % (status, ctype, url, resp.body[:300]))
